@@ -2,8 +2,16 @@ module verifharness
 
 go 1.18
 
-require github.com/weedbox/pokertable v0.0.0
+require (
+	github.com/weedbox/pokerface v0.1.10
+	github.com/weedbox/pokertable v0.0.0
+)
 
-require github.com/thoas/go-funk v0.9.3 // indirect
+require (
+	github.com/google/uuid v1.3.1 // indirect
+	github.com/thoas/go-funk v0.9.3 // indirect
+	github.com/weedbox/syncsaga v0.0.0-20230821071725-a634f0872340 // indirect
+	github.com/weedbox/timebank v0.0.0-20230713013837-bd7a6f808e3e // indirect
+)
 
 replace github.com/weedbox/pokertable => /repo
